@@ -57,12 +57,13 @@ class SAny(SV):
 class SSeq(SV):
     """A symbolic immutable sequence; `elem` is the kind of its elements."""
 
-    __slots__ = ("t", "elem")
+    __slots__ = ("t", "elem", "rev")
     kind = "seq"
 
     def __init__(self, t, elem):
         self.t = t
         self.elem = elem
+        self.rev = False
 
 
 class SLazy:
